@@ -78,14 +78,14 @@ __CPROVER_ensures(__CPROVER_return_value == C && vg_live == __CPROVER_old(vg_liv
 
 /* public front ends: positive conforming dimensions, any cutoff >= 0; result header as documented */
 mzd_t *mzd_mul(mzd_t *C, mzd_t const *A, mzd_t const *B, int cutoff)
-__CPROVER_requires(SHP(A) && SHP(B) && NE(A) && NE(B) && A->ncols == B->nrows && cutoff >= 0)
+__CPROVER_requires(SHP(A) && SHP(B) && NE(A) && NE(B) && A->ncols == B->nrows && cutoff >= 0 && cutoff <= (1 << 28))
 __CPROVER_requires(C == NULL || (SHP(C) && C->nrows == A->nrows && C->ncols == B->ncols))
 __CPROVER_assigns(vg_live)
 __CPROVER_ensures(C != NULL ==> (__CPROVER_return_value == C && vg_live == __CPROVER_old(vg_live)))
 __CPROVER_ensures(C == NULL ==> (FRESH_HDR(__CPROVER_return_value) && __CPROVER_return_value->nrows == A->nrows && __CPROVER_return_value->ncols == B->ncols && !WINDOWED(__CPROVER_return_value) && vg_live == __CPROVER_old(vg_live) + 1));
 
 mzd_t *mzd_addmul(mzd_t *C, mzd_t const *A, mzd_t const *B, int cutoff)
-__CPROVER_requires(SHP(A) && SHP(B) && NE(A) && NE(B) && A->ncols == B->nrows && cutoff >= 0)
+__CPROVER_requires(SHP(A) && SHP(B) && NE(A) && NE(B) && A->ncols == B->nrows && cutoff >= 0 && cutoff <= (1 << 28))
 __CPROVER_requires(C == NULL || (SHP(C) && C->nrows == A->nrows && C->ncols == B->ncols))
 __CPROVER_assigns(vg_live)
 __CPROVER_ensures(C != NULL ==> (__CPROVER_return_value == C && vg_live == __CPROVER_old(vg_live)))
